@@ -11,6 +11,7 @@ import io
 import json
 
 import jax.numpy as jnp
+import numpy as np
 import networkx as nx
 
 import liesel.model as lsl
@@ -126,14 +127,19 @@ class World:
         ev["user_names"] = self.user_names()
         return ev
 
-    MUTATORS = ["name", "needs_seed", "set_inputs", "add_inputs", "function"]
+    MUTATORS = ["name", "needs_seed", "set_inputs", "add_inputs", "function", "claimed_by_free_var"]
 
     def mutate(self, o, which):
         nd = self.obj[o]
-        before = (nd.name, nd.needs_seed, tuple(nd.inputs), tuple(sorted(nd.kwinputs)), getattr(nd, "function", None))
+        before = (nd.name, nd.needs_seed, tuple(nd.inputs), tuple(sorted(nd.kwinputs)), getattr(nd, "function", None), nd.var)
         ev = {"ev": "mutate", "o": o, "which": which}
+        if which == "claimed_by_free_var" and not nd.model:
+            which = "needs_seed"       # (a free node would really become the variable's value node: only tried on frozen ones)
         try:
-            if which == "name":
+            if which == "claimed_by_free_var":
+                # a variable outside every model tries to take the node as its value node
+                lsl.Var(0.0, name="free_tmp").value_node = nd
+            elif which == "name":
                 nd.name = "z"
             elif which == "needs_seed":
                 nd.needs_seed = nd.needs_seed
@@ -151,7 +157,7 @@ class World:
         except Exception as ex:  # noqa: BLE001
             ev["raised"] = True
             ev["reason"] = classify(ex)
-        after = (nd.name, nd.needs_seed, tuple(nd.inputs), tuple(sorted(nd.kwinputs)), getattr(nd, "function", None))
+        after = (nd.name, nd.needs_seed, tuple(nd.inputs), tuple(sorted(nd.kwinputs)), getattr(nd, "function", None), nd.var)
         ev["unchanged"] = before == after
         ev["user_names"] = self.user_names()
         return ev
@@ -337,4 +343,57 @@ def rejected_build_events():
     attempt("duplicate_var_names", dup_vars, "duplicate_names")
     for k1, k2 in (("node", "node"), ("var", "var"), ("node", "var"), ("var", "node")):
         attempt(f"duplicate_group_names_{k1}_{k2}", dup_groups(k1, k2), "duplicate_names")
+    return {"hdr": {"universe": "plans"}, "ev": out}
+
+
+def copy_behaviour_events():
+    """Copies of a model must *behave* like the original and independently of it: a model with a default-transformed
+    variable whose bijector depends on another variable (u ~ Uniform(0, hi), u.transform()) is copied in every way the
+    library offers; then `hi` is changed in the copy (closed form for u) and afterwards in the original."""
+    import tensorflow_probability.substrates.jax.distributions as tfd
+    out = []
+
+    def make():
+        hi = lsl.Var(jnp.float32(2.0), name="hi")
+        u = lsl.Var(jnp.float32(0.8), lsl.Dist(tfd.Uniform, low=0.0, high=hi), name="u")
+        ut = u.transform()
+        y = lsl.Var(lsl.Calc(lambda u: 10.0 * u, u), name="y")
+        return lsl.GraphBuilder().add(y, ut), ut
+
+    def u_expected(m):
+        h, t = float(m.vars["hi"].value), float(m.vars["u_transformed"].value)
+        return h / (1.0 + np.exp(-t))
+
+    for how in ("deepcopy", "save_load", "copy_rebuild", "build_copy_true"):
+        ev = {"ev": "copy_behaviour", "how": how, "crash": ""}
+        try:
+            gb, _ = make()
+            if how == "build_copy_true":
+                orig = gb.build_model(copy=True)
+                new = gb.build_model(copy=True)
+            else:
+                orig = gb.build_model()
+                if how == "deepcopy":
+                    new = _copy.deepcopy(orig)
+                elif how == "save_load":
+                    buf = io.BytesIO()
+                    save_model(orig, buf)
+                    buf.seek(0)
+                    new = load_model(buf)
+                else:
+                    nds, vrs = orig.copy_nodes_and_vars()
+                    new = lsl.GraphBuilder().add(*nds.values(), *vrs.values()).build_model()
+            new.vars["hi"].value = jnp.float32(5.0)
+            ev["copy_follows_its_own_values"] = bool(abs(float(new.vars["u"].value) - u_expected(new)) < 1e-4
+                                                     and abs(float(new.vars["y"].value) - 10 * u_expected(new)) < 1e-3)
+            ev["original_unaffected"] = bool(abs(float(orig.vars["hi"].value) - 2.0) < 1e-6
+                                             and abs(float(orig.vars["u"].value) - u_expected(orig)) < 1e-4)
+            before = float(new.vars["u"].value)
+            orig.vars["hi"].value = jnp.float32(9.0)
+            ev["copy_unaffected_by_original"] = bool(float(new.vars["u"].value) == before
+                                                     and abs(float(orig.vars["u"].value) - u_expected(orig)) < 1e-4)
+        except Exception as ex:  # noqa: BLE001
+            ev["crash"] = f"{type(ex).__name__}: {ex}"[:200]
+            ev.update({"copy_follows_its_own_values": False, "original_unaffected": False, "copy_unaffected_by_original": False})
+        out.append(ev)
     return {"hdr": {"universe": "plans"}, "ev": out}
